@@ -121,6 +121,7 @@ def judge_rule(R, it, key, name, k, r, lean_ans, swf_ans):
 
 
 def run_items(R, items, tag):
+    items.sort(key=lambda it: (it.get("m", 0), len(it["P"]) if "P" in it else len(it.get("vals", []))))      # same-shaped elections adjacent
     cases = [{"items": ch} for ch in chunks(items, 50)]
     results = pmap("c10", "impl_batch", cases, deadline=120.0)
     flat = []
